@@ -183,6 +183,9 @@ impl<A> NFA<A> {
         let mut closure: Set<StateIdx> = states.clone();
 
         while let Some(work) = worklist.pop() {
+            #[cfg(feature = "verif")]
+            crate::verif::tick("compute_state_closure");
+
             for next_state in self.next_empty_states(work) {
                 if closure.insert(*next_state) {
                     worklist.push(*next_state);
